@@ -352,9 +352,230 @@ def large_search(ctx):
     ctx.ob("C16_search_large", ok, "search", "" if ok else "see failing inputs")
 
 
+# ---------------------------------------------------------------------------
+# round 5: re-used adiabatic objects, dense arithmetic after a spectrum request, solver names
+
+REUSE_SRC = (
+    "def build_adiabatic(kind, pa, pb, n, dt, sname='sq', param=False):\n"
+    "    solver = {'dense': 'exp', 'trotter': 'exp'}.get(kind, kind)\n"
+    "    if kind == 'trotter':\n"
+    "        h0, h1 = SymbolicHamiltonian(form_of(pa), nqubits=n), SymbolicHamiltonian(form_of(pb), nqubits=n)\n"
+    "    else:\n"
+    "        h0, h1 = Hamiltonian(n, matrix_of(pa, n)), Hamiltonian(n, matrix_of(pb, n))\n"
+    "    s = (lambda x, p: x ** p[0]) if param else {'lin': (lambda x: x), 'sq': (lambda x: x ** 2)}[sname]\n"
+    "    return models.AdiabaticEvolution(h0, h1, s, dt, solver=solver)\n"
+    "def measure_reuse(kind, pa, pb, n, dt, T1, T2, psi, mode):\n"
+    "    ev = build_adiabatic(kind, pa, pb, n, dt, param=(mode == 'set_parameters'))\n"
+    "    fresh = build_adiabatic(kind, pa, pb, n, dt, param=(mode == 'set_parameters'))\n"
+    "    if mode == 'set_parameters':\n"
+    "        ev.set_parameters([2.0, T1]); fresh.set_parameters([2.0, T2])\n"
+    "    else:\n"
+    "        ev(final_time=T1, initial_state=psi.copy())\n"
+    "    a = np.asarray(ev(final_time=T2, initial_state=psi.copy())); b = np.asarray(fresh(final_time=T2, initial_state=psi.copy()))\n"
+    "    # independent reference: fine steps of the frozen exponentials with s = (t / T2) ** 2\n"
+    "    A, B = matrix_of(pa, n), matrix_of(pb, n); ref = psi.copy(); m = 2000\n"
+    "    for j in range(m):\n"
+    "        sj = ((j + 0.5) / m) ** 2; ref = sla.expm(-1j * (T2 / m) * ((1 - sj) * A + sj * B)) @ ref\n"
+    "    return float(np.abs(a - b).max()), vdist(a, ref), vdist(b, ref)\n"
+)
+
+ARITH_SRC = (
+    "FORMS = {'c-H': lambda H, c: c - H, 'H+c': lambda H, c: H + c, 'c+H': lambda H, c: c + H, 'H-c': lambda H, c: H - c,\n"
+    "         'c*H': lambda H, c: c * H, 'H*c': lambda H, c: H * c, '-c*H': lambda H, c: (-c) * H, 'c-(c*H)': lambda H, c: c - (c * H)}\n"
+    "MATS = {'c-H': lambda M, c: c * np.eye(len(M)) - M, 'H+c': lambda M, c: M + c * np.eye(len(M)), 'c+H': lambda M, c: M + c * np.eye(len(M)),\n"
+    "        'H-c': lambda M, c: M - c * np.eye(len(M)), 'c*H': lambda M, c: c * M, 'H*c': lambda M, c: c * M, '-c*H': lambda M, c: -c * M,\n"
+    "        'c-(c*H)': lambda M, c: c * np.eye(len(M)) - c * M}\n"
+    "def measure_arith(Hm, n, c, form, warm, psi, dt, k):\n"
+    "    H = Hamiltonian(n, Hm.copy())\n"
+    "    if warm == 'eigenvectors': H.eigenvectors()\n"
+    "    elif warm == 'ground_state': H.ground_state()\n"
+    "    elif warm == 'eigenvalues': H.eigenvalues()\n"
+    "    elif warm == 'exp': H.exp(0.3)\n"
+    "    G = FORMS[form](H, c); Gm = MATS[form](Hm, c)\n"
+    "    out = {}\n"
+    "    out['matrix'] = float(np.abs(np.asarray(G.matrix) - Gm).max())\n"
+    "    out['exp'] = float(np.abs(np.asarray(G.exp(dt)) - sla.expm(-1j * dt * Gm)).max())\n"
+    "    ev = np.asarray(G.eigenvalues()); V = np.asarray(G.eigenvectors())\n"
+    "    out['eigenvalues'] = float(np.abs(np.sort(ev.real) - np.linalg.eigvalsh(Gm)).max())\n"
+    "    out['eigenvectors'] = float(np.abs(Gm @ V - V * ev[None, :]).max())\n"
+    "    g = np.asarray(G.ground_state()); out['ground_state'] = float(np.linalg.norm(Gm @ g - np.linalg.eigvalsh(Gm)[0] * g))\n"
+    "    o = np.asarray(models.StateEvolution(G, dt)(final_time=k * dt, initial_state=psi.copy()))\n"
+    "    out['evolution'] = float(np.abs(o - sla.expm(-1j * k * dt * Gm) @ psi).max())\n"
+    "    out['original'] = float(np.abs(np.asarray(H.exp(dt)) - sla.expm(-1j * dt * Hm)).max())\n"
+    "    return out\n"
+)
+
+NAMES_SRC = (
+    "def measure_name(name, canonical, Hm, n, dt, T, psi, adiabatic, cb):\n"
+    "    def build(sv):\n"
+    "        cbs = [callbacks.Norm()] if cb else []\n"
+    "        if adiabatic:\n"
+    "            return models.AdiabaticEvolution(Hamiltonian(n, -np.asarray(hamiltonians.X(n).matrix)), Hamiltonian(n, Hm.copy()), lambda x: x, dt, solver=sv, callbacks=cbs)\n"
+    "        return models.StateEvolution(Hamiltonian(n, Hm.copy()), dt, solver=sv, callbacks=cbs)\n"
+    "    try:\n"
+    "        ev = build(name)\n"
+    "    except ValueError as ex:\n"
+    "        return ('rejected', str(ex)[:60])\n"
+    "    a = np.asarray(ev(final_time=T, initial_state=psi.copy())); b = np.asarray(build(canonical)(final_time=T, initial_state=psi.copy()))\n"
+    "    return ('accepted', float(np.abs(a - b).max()), float(abs(np.linalg.norm(a) - 1)))\n"
+)
+
+
+def reuse_search(ctx):
+    rng = ctx.rng
+    env = dict(C.Q)
+    exec(COMMON_SRC + REUSE_SRC, env)  # noqa: S102
+    ok = True
+    for kind in ("dense", "trotter", "rk4", "rk45"):
+        for mode in ("execute-twice", "set_parameters"):
+            n = 2
+            pa = [(round(-rng.uniform(0.5, 1.0), 3), [(i, "X")]) for i in range(n)]
+            pb = _chain(rng, n, "ZY")
+            psi = C.rstate(rng, n)
+            dt = 0.05
+            T1, T2 = rng.choice([(1.0, 0.5), (0.5, 1.0), (0.3, 0.8), (1.5, 0.6)])
+            ctx.case(("adiabatic-reuse", kind, mode))
+            ctx.stat(f"adiabatic:reuse:{mode}")
+            src = C.PRE + COMMON_SRC + REUSE_SRC + (
+                f"pa = {pa!r}; pb = {pb!r}\npsi = {C.arr_src(psi)}\n"
+                f"d, ea, eb = measure_reuse({kind!r}, pa, pb, {n}, {dt!r}, {T1!r}, {T2!r}, psi, {mode!r})\n"
+                "print('re-used object vs fresh object', d, '; distances from a fine reference', ea, eb)\nsys.exit(0 if d < 1e-9 else 1)\n")
+            try:
+                d, ea, eb = env["measure_reuse"](kind, pa, pb, n, dt, T1, T2, psi, mode)
+            except Exception as ex:  # noqa: BLE001
+                ok = False
+                C.fail(ctx, "adiabatic:reuse:raises", f"{kind}/{mode}: {type(ex).__name__}: {ex}", src, broken=["C16_search_adiabatic_reuse"])
+                continue
+            if d > 1e-9:
+                ok = False
+                how = f"executed for final_time={T1} and then for final_time={T2}" if mode == "execute-twice" else f"set_parameters([2.0, {T1}]) followed by execute(final_time={T2})"
+                C.fail(ctx, f"adiabatic:reuse:{mode}",
+                       f"one AdiabaticEvolution object ({kind}) {how}: the second result differs from a fresh object's by {d:.3e} (distance from a fine reference integration of (1−s(t/T))H0 + s(t/T)H1: {ea:.3e}, fresh object {eb:.3e})",
+                       src, expected="same as a fresh object", observed=d, broken=["C16_search_adiabatic_reuse"])
+    ctx.ob("C16_search_adiabatic_reuse", ok, "search", "" if ok else "see failing inputs")
+
+
+def arith_search(ctx):
+    rng = ctx.rng
+    env = dict(C.Q)
+    exec(COMMON_SRC + ARITH_SRC, env)  # noqa: S102
+    ok = True
+    forms = list(env["FORMS"])
+    warms = ["eigenvectors", "ground_state", "eigenvalues", "exp", "none"]
+    combos = [(f, w) for f in forms for w in warms]
+    if not ctx.thorough:
+        combos = [(f, w) for f, w in combos if w in ("eigenvectors", "ground_state")] + rng.sample([(f, w) for f, w in combos if w not in ("eigenvectors", "ground_state")], 6)
+    for form, warm in combos:
+        n = rng.randint(1, 2)
+        ms, const = C.rand_poly(rng, n, rng.randint(2, 4), commuting=None, integer=False)
+        Hm = C.poly_matrix(ms, const, n)
+        c = rng.choice([2.0, -1.5, 0.7, 3, np.float64(1.25)])
+        psi = C.rstate(rng, n)
+        dt, k = 0.1, 4
+        ctx.case(("dense-arith", form, warm))
+        ctx.stat(f"dense-arith:{form}")
+        src = C.PRE + COMMON_SRC + ARITH_SRC + (
+            f"Hm = {C.arr_src(Hm)}\npsi = {C.arr_src(psi)}\n"
+            f"out = measure_arith(Hm, {n}, {float(c)!r}, {form!r}, {warm!r}, psi, {dt!r}, {k})\nprint(out)\n"
+            "sys.exit(1 if max(out.values()) > 1e-9 else 0)\n")
+        try:
+            out = env["measure_arith"](Hm, n, c, form, warm, psi, dt, k)
+        except Exception as ex:  # noqa: BLE001
+            ok = False
+            C.fail(ctx, "dense-arith:raises", f"{form} after {warm}: {type(ex).__name__}: {ex}", src, broken=["C16_search_dense_arith"])
+            continue
+        bad = [r for r, v in out.items() if v > 1e-9]
+        if bad:
+            ok = False
+            C.fail(ctx, f"dense-arith:{form}:{bad[0]}",
+                   f"dense Hamiltonian H on {n} qubit(s), {warm} requested first, then G = {form} with c = {c!r}: routes {bad} of G disagree with the explicit matrix ({ {r: out[r] for r in bad} })",
+                   src, expected="exp / spectrum / exp-solver evolution of the explicit matrix", observed=out, broken=["C16_search_dense_arith"])
+    ctx.ob("C16_search_dense_arith", ok, "search", "" if ok else "see failing inputs")
+
+
+def solver_name_search(ctx):
+    rng = ctx.rng
+    env = dict(C.Q)
+    exec(COMMON_SRC + NAMES_SRC, env)  # noqa: S102
+    ok = True
+    variants = [("RK4", "rk4"), ("Rk4", "rk4"), (" rk4", "rk4"), ("rk4 ", "rk4"), ("RK45", "rk45"), ("Rk45", "rk45"), ("rK45", "rk45"), ("rk45\n", "rk45"),
+                ("EXP", "exp"), (" exp", "exp"), ("Exp", "exp"), ("rk4", "rk4"), ("rk45", "rk45"), ("exp", "exp"), ("runge-kutta", "rk4"), ("rk", "rk4")]
+    for name, canonical in variants:
+        for adiabatic in (False, True):
+            n = 2
+            ms, const = C.rand_poly(rng, n, 3, commuting=None, integer=False)
+            Hm = C.poly_matrix(ms, const, n)
+            psi = C.rstate(rng, n) if not adiabatic else np.ones(4, dtype=complex) / 2
+            dt, T = 0.1, 2.0
+            cb = rng.random() < 0.5
+            ctx.case(("solver-name", name, adiabatic))
+            src = C.PRE + COMMON_SRC + NAMES_SRC + (
+                f"Hm = {C.arr_src(Hm)}\npsi = {C.arr_src(psi)}\n"
+                f"r = measure_name({name!r}, {canonical!r}, Hm, {n}, {dt!r}, {T!r}, psi, {adiabatic!r}, {cb!r})\nprint(r)\n"
+                "sys.exit(0 if r[0] == 'rejected' or (r[1] < 1e-12 and r[2] < 1e-9) else 1)\n")
+            try:
+                r = env["measure_name"](name, canonical, Hm, n, dt, T, psi, adiabatic, cb)
+            except Exception as ex:  # noqa: BLE001
+                ok = False
+                C.fail(ctx, "solver-name:raises", f"solver={name!r}: {type(ex).__name__}: {ex} (an unknown name must raise ValueError)", src, broken=["C16_search_solver_names"])
+                continue
+            ctx.stat(f"solver-name:{r[0]}")
+            if r[0] == "accepted" and (r[1] > 1e-12 or r[2] > 1e-9):
+                ok = False
+                C.fail(ctx, f"solver-name:{canonical}",
+                       f"{'AdiabaticEvolution' if adiabatic else 'StateEvolution'}(solver={name!r}) is accepted but differs from solver={canonical!r} by {r[1]:.3e}; |norm − 1| of the returned state = {r[2]:.3e}",
+                       src, expected="ValueError, or the same (normalised) state as the canonical name", observed=list(r), broken=["C16_search_solver_names"])
+    ctx.ob("C16_search_solver_names", ok, "search", "" if ok else "see failing inputs")
+
+# `AdiabaticHamiltonian(h, h)` with ONE SymbolicHamiltonian object in both roles: on the current tree the
+# Trotter circuit weights every (doubled) term with s(t) — reported to the lead (patch
+# /tmp/patches/d16b_adiabatic_same_object.diff); recorded as a stat until the lead decides, then set the switch.
+SAME_OBJECT_STRICT = True
+
+SAME_SRC = (
+    "def measure_same(prods, n, dt, T, psi):\n"
+    "    h = SymbolicHamiltonian(form_of(prods), nqubits=n)\n"
+    "    out = np.asarray(models.AdiabaticEvolution(h, h, lambda x: x, dt)(final_time=T, initial_state=psi.copy()))\n"
+    "    k = int(round(T / dt)); L = sum(abs(c) for c, _ in prods)\n"
+    "    return vdist(out, sla.expm(-1j * T * matrix_of(prods, n)) @ psi), k * 2 * exp_rem(3, dt * L)\n"
+)
+
+
+def same_object_probe(ctx):
+    rng = ctx.rng
+    env = dict(C.Q)
+    exec(COMMON_SRC + SAME_SRC, env)  # noqa: S102
+    ok = True
+    n = 2
+    prods = _chain(rng, n)
+    psi = C.rstate(rng, n)
+    dt, T = 0.05, 1.0
+    ctx.case(("adiabatic-same-object",))
+    src = C.PRE + COMMON_SRC + SAME_SRC + (
+        f"prods = {prods!r}\npsi = {C.arr_src(psi)}\nd, bound = measure_same(prods, {n}, {dt!r}, {T!r}, psi)\n"
+        "print('AdiabaticEvolution(h, h): distance from exp(-iTH)psi', d, 'proved Trotter bound', bound)\nsys.exit(0 if d <= bound + 1e-9 else 1)\n")
+    try:
+        d, bound = env["measure_same"](prods, n, dt, T, psi)
+    except Exception as ex:  # noqa: BLE001
+        d, bound = float("inf"), 0.0
+        ctx.log(f"same-object probe raises {type(ex).__name__}: {ex}")
+    off = not d <= bound + 1e-9
+    ctx.stat("observation:adiabatic:same-object:" + ("deviates" if off else "within-bound"))
+    if off and SAME_OBJECT_STRICT:
+        ok = False
+        C.fail(ctx, "adiabatic:same-object",
+               f"AdiabaticEvolution(h, h, …) with ONE SymbolicHamiltonian object in both roles ((1−s)H + sH = H): {d:.3e} away from exp(−iTH)ψ, proved Trotter bound {bound:.3e}",
+               src, expected=f"<= {bound:.3e}", observed=d, broken=["C16_search_adiabatic_same_object"])
+    ctx.ob("C16_search_adiabatic_same_object", ok, "search", "" if ok else "see failing inputs")
+
+
 def run_suites(ctx, c16):
     global C
     C = c16
     forms_search(ctx)
     shared_adiabatic_search(ctx)
     large_search(ctx)
+    reuse_search(ctx)
+    arith_search(ctx)
+    solver_name_search(ctx)
+    same_object_probe(ctx)
